@@ -22,6 +22,7 @@ repairs D4 / D9 of the replication core as far as they touch these functions):
  D9: an exception from `_idToMethod[funcID](...)` - here: `KeyError` for an unknown id - is logged and becomes the
      result of the command; the entry counts as applied and the batch goes on;
  D61: loading a dump answers the callbacks of the commands it covers with `(None, LEADER_CHANGED)`;
+ D82: the callbacks a dump load answers run last, in the state with the restored version and its name table;
  D71: a VERSION entry below the enabled version changes nothing (the enabled version never goes down), its
       result is the refusal.
 
@@ -195,8 +196,10 @@ inductive Ev where
   /-- gate D21: enabled version not supported by this code -/
   | blocked (enabled self : Nat)
   /-- subscriber callback `(None, FAIL_REASON.LEADER_CHANGED)`: the command's index is covered by a loaded dump,
-  its outcome is not known to this node (repair D61 of `__loadDumpFile`) -/
-  | callbackOpen (cb : Nat)
+  its outcome is not known to this node (repair D61 of `__loadDumpFile`); `seenEnabled` / `seenTableVer` = what the
+  callback sees when it runs: `getCodeVersion()` and the version the name table was built for (repair D82: the callbacks
+  are answered LAST, after `__onSetCodeVersion(enabled)`, so a call re-submitted from one resolves with the snapshot's table) -/
+  | callbackOpen (cb : Nat) (seenEnabled seenTableVer : Nat)
 deriving DecidableEq, Repr, Inhabited
 
 def initNode (cls : ClassDef) : Node :=
@@ -347,7 +350,10 @@ def loadDump (n : Node) (d : Dump) (clearJournal : Bool) : Node :=
 by ascending index, then in registration order. The early return (`skipsInstall`) happens before and resolves nothing. -/
 def loadDumpEvents (n : Node) (d : Dump) (clearJournal : Bool) : List Ev :=
   if skipsInstall n d clearJournal then [] else
-  (coveredWaiting n.waiting d.last.idx).flatMap (fun p => p.2.map (fun s => Ev.callbackOpen s.2))
+  -- statement order of `__loadDumpFile`: state restored, log, lastApplied, covered subscribers taken off the list,
+  -- member set, name table rebuilt - and only then the callbacks: they run in the final state `n'`
+  let n' := loadDump n d clearJournal
+  (coveredWaiting n.waiting d.last.idx).flatMap (fun p => p.2.map (fun s => Ev.callbackOpen s.2 n'.enabled n'.tableVer))
 
 /-- Second phase of `__tryLogCompaction` (the serializer reported SUCCESS for dump `d`):
 `__deleteEntriesTo(serializeID)` with `serializeID = d.prev.idx` (`syncobj.py:1337-1340`, `:1125-1130`). -/
